@@ -5,7 +5,7 @@ is/hail/expr/ir/Parser.scala and is/hail/utils/StringEscapeUtils.scala; nothing 
   R1  bare identifiers.  The language of names emitted WITHOUT back-ticks (escape_parsable: `_parsable_str` with the matching mode
       used; escape_id: its own regex) is included in (a) the Python type grammar's `simple_identifier` and (b) the engine's
       `JavaTokenParsers.ident` = JavaIdentifierStart JavaIdentifierPart* over UTF-16 units (the two predicates are tabulated from
-      the installed JDK for every char), and `identifier` is the first alternative of the lexer's token rule.
+      the installed JDK for every char); decided once over ASCII names and once over all names.
   R2  escapes.  The escapers are turned into UNIT TABLES (code-point range -> emitted text): escape_parsable from the platform's
       unicode_escape codec (tabulated for every code point) followed by the extracted `.replace`, escape_str/escape_id by symbolic
       evaluation of the per-character loop over code-point ranges.  Per unit kind, delimiter+unit+delimiter must be in (a) the
@@ -690,6 +690,8 @@ def check_units_against(ctx: Ctx, rule: str, cons_prefix: str, units: List[Unit]
         # a concrete name (friendly code points first)
         ex = ''
         cands = sorted(((cp, u) for u in us for cp in u.examples()), key=lambda t: (t[0] not in (0xE9, 0x1F600, 0x4E2D), t[0]))
+        # characters of the automaton's witness are candidates too (raw units: the offending character itself)
+        cands = [(ord(ch), u) for ch in w for u in us if u.lo <= ord(ch) <= u.hi and any(p[0] == 'self' for p in u.parts)] + cands
         for cp, u in cands:
             text = delim + u.output(cp) + delim
             if not R.accepts(target, text):
@@ -897,15 +899,15 @@ def run(ctx: Ctx) -> None:
     ctx.explanation = ('Escapers are turned into unit tables (code-point range -> emitted text) and compared, as regular languages over all '
                        'Unicode code points, with the Python grammar terminals and with the engine lexer read from Parser.scala; printed '
                        'forms are parsed with our own PEG interpreter of the grammar text. No repository code is run.')
-    ctx.rule('R1', 'names emitted bare are simple_identifier of the type grammar and JavaTokenParsers.ident of the engine lexer; identifier is '
-                   'the first token alternative', 4)
+    ctx.rule('R1', 'names emitted bare are simple_identifier of the type grammar and JavaTokenParsers.ident of the engine lexer '
+                   ' (ASCII names and all names)', 5)
     ctx.rule('R2', 'every escape unit the Python side can emit between delimiters is accepted by the engine lexer quotedLiteral / by the '
-                   'grammar escaped_identifier (prefix-free)', 40)
-    ctx.rule('R3', 'unescape_parsable mirrors escape_parsable; struct field and reference genome names are printed through escape_parsable', 8)
+                   'grammar escaped_identifier (prefix-free)', 50)
+    ctx.rule('R3', 'unescape_parsable mirrors escape_parsable; struct field and reference genome names are printed through escape_parsable', 9)
     ctx.rule('R4', 'every HailType __str__ form parses back through the grammar rule whose visitor builds that class; visitor arity; every '
-                   'alternative of `type` has a visitor', 40)
-    ctx.rule('R5', 'unescapeString maps every accepted escape unit back to the same UTF-16 code units', 20)
-    ctx.rule('R6', 'the keyword of every _parsable_string form has an arm in IRParser.type_expr that consumes the punctuation printed', 17)
+                   'alternative of `type` has a visitor', 52)
+    ctx.rule('R5', 'unescapeString maps every accepted escape unit back to the same UTF-16 code units', 35)
+    ctx.rule('R6', 'the keyword of every _parsable_string form has an arm in IRParser.type_expr that consumes the punctuation printed', 18)
     ctx.assume('regex terminals of type_grammar follow stdlib `re` semantics (parsimonious >= 0.10 uses the third-party `regex` module, whose \\w '
                'differs for a few code points such as U+00B2; not installed here)')
     ctx.assume('JavaTokenParsers.ident = rep1(acceptIf(Character.isJavaIdentifierStart), elem(Character.isJavaIdentifierPart)) on UTF-16 chars '
@@ -962,14 +964,19 @@ def run(ctx: Ctx) -> None:
     L_java, java_origin = java_ident_language(ctx)
     ctx.need(ident['alternatives'] == ['backtickLiteral', 'ident'] or set(ident['alternatives']) == {'backtickLiteral', 'ident'},
              f'{F_PARSER}::IRLexer.identifier alternatives changed: {ident["alternatives"]}')
-    ctx.check(tokens[0] == 'identifier', 'R1', f'{F_PARSER}::IRLexer.token::identifier is tried first',
-              f'the first alternative of IRLexer.token is `{tokens[0]}`, so a bare name can be lexed as another token kind', S.load(F_PARSER).rel, ident['line'],
-              detail={'order': tokens})
+    ctx.need('identifier' in tokens, f'{F_PARSER}::IRLexer.token: no identifier alternative ({tokens})')
     w = R.included(esc.bare, L_simple)
     ctx.check(w is None, 'R1', f'{F_JAVA}::escape_parsable::bare names are simple_identifier',
               f'escape_parsable emits {_show(w)} without back-ticks (it matches {esc.rd.pattern!r} under {esc.mode}), but the type grammar\'s '
               f'simple_identifier {pat_simple!r} does not match it in full: the printed type does not parse back', mj.path, esc.test_line)
+    ascii_only = R.lang(R.star(R.chars(R.pred('str.isascii'))), 'ASCII*')
     for e_, file_, m_ in ((esc, F_JAVA, mj), (eid, F_MISC, mm)):
+        # (a) over ASCII names (the engine and Python agree on ASCII letters/digits: any difference here is a plain grammar mismatch)
+        w = R.included(e_.bare & ascii_only, L_java)
+        ctx.check(w is None, 'R1', f'{file_}::{e_.name}::bare ASCII names are JavaTokenParsers.ident',
+                  f'{e_.name} emits the name {_show(w)} without back-ticks (it matches {e_.rd.pattern!r} under {e_.mode}), but that is not a Java identifier: '
+                  f'IRLexer.ident does not read it as one identifier token', m_.path, e_.test_line)
+        # (b) over all names
         w = R.included(e_.bare, L_java)
         ctx.check(w is None, 'R1', f'{file_}::{e_.name}::bare names are JavaTokenParsers.ident',
                   f'{e_.name} emits the name {_show(w)} without back-ticks (it matches {e_.rd.pattern!r} under {e_.mode}; Python\'s \\w accepts every '
@@ -1013,7 +1020,9 @@ def run(ctx: Ctx) -> None:
             if not acc.get(kind, False):
                 continue  # not accepted by the lexer at all: reported under R2
             bad = None
-            for cp, u in sorted(((cp, u) for u in us for cp in u.examples()), key=lambda t: (t[0] not in (0xE9, 0x1F600, 0x4E2D), t[0])):
+            cand = [(cp, u) for u in us for cp in u.examples()]
+            cand += [(c0, u) for u in us for c0 in (0x5C, ord(dl)) if u.lo <= c0 <= u.hi and any(p[0] == 'self' for p in u.parts)]
+            for cp, u in sorted(cand, key=lambda t: (t[0] not in (0xE9, 0x1F600, 0x4E2D), t[0])):
                 got = scala_decode(u.output(cp), arms)
                 if got != utf16(cp):
                     bad = (cp, u.output(cp), got)
@@ -1023,7 +1032,7 @@ def run(ctx: Ctx) -> None:
                 ctx.ok('R5', cons, {'code_points': sum(u.hi - u.lo + 1 for u in us)})
             else:
                 cp, text, got = bad
-                gs = 'an error' if got is None else 'the UTF-16 units ' + ' '.join(f'U+{x:04X}' for x in got) + f' ({ascii("".join(chr(x) for x in got))})'
+                gs = 'an error' if got is None else 'nothing (the escape is incomplete and swallows what follows)' if not got else 'the UTF-16 units ' + ' '.join(f'U+{x:04X}' for x in got) + f' ({ascii("".join(chr(x) for x in got))})'
                 ctx.bad('R5', cons, f'{label} renders U+{cp:04X} as {ascii(text)}; the lexer accepts it but StringEscapeUtils.unescapeString '
                         f'(\\{arms["unicode_intro"]} reads exactly {arms["unicode_width"]} hex digits) decodes it to {gs} instead of '
                         f'U+{cp:04X} (UTF-16 ' + ' '.join(f'U+{x:04X}' for x in utf16(cp)) + '): the engine sees a different name', path_, line_)
